@@ -88,7 +88,11 @@ def find_slot(I, m: SMap, kt, create=True):
                 return s
             if I.ctx.prove(z3.Not(eq)):
                 continue
-            raise Unsupported("map key equality undetermined in formula mode")
+            # undetermined on this path: case split (both cases are explored as paths of their own, the
+            # clause is checked in each)
+            if I.ctx.branch(eq):
+                return s
+            continue
         if I.ctx.branch(eq):
             return s
     if I.fmode and I.in_old:
@@ -119,6 +123,8 @@ def find_slot(I, m: SMap, kt, create=True):
 
 
 def contains(I, m, key):
+    if key is None:
+        return z3.BoolVal(False)
     return z3.Select(m.has, key_term(I, key))
 
 
@@ -166,6 +172,8 @@ def _fmode_value(I, m, kt):
 
 
 def get(I, m: SMap, key, default=None):
+    if key is None:
+        return default  # None is never a key of an int-keyed map
     kt = key_term(I, key)
     present = z3.Select(m.has, kt)
     if I.fmode:
@@ -208,6 +216,10 @@ def setitem(I, m: SMap, key, value):
 
 
 def pop(I, m: SMap, key, default=None, has_default=False):
+    if key is None:  # None is never a key of an int-keyed map
+        if has_default:
+            return default
+        raise PyRaise(mk_exc(KeyError, key))
     kt = key_term(I, key)
     s = find_slot(I, m, kt)
     if not I.ctx.branch(z3.Select(m.has, kt)):
@@ -340,6 +352,44 @@ def coll_contains(I, c: SColl, x):
             continue
         fs.append(_and([p if isinstance(p, bool) else p, same]))
     return _or(fs)
+
+
+# ---------------------------------------------------------------------------
+# lists with an unknown prefix: the value a list has at a loop head after any number of earlier iterations
+# ---------------------------------------------------------------------------
+class SList:
+    """list = an unknown prefix (opaque constant `base`; nothing is known about its length or elements) followed by
+    the concrete spine `tail` of the elements appended since.  Supports append / extend / + / == ; anything that
+    would need the prefix (len, iteration, indexing, membership) is outside reach."""
+
+    def __init__(self, name, base, tail=None):
+        self.name, self.base, self.tail = name, base, list(tail or [])
+        self.oid = next(_ids)
+
+    def copy(self):
+        c = SList(self.name, self.base, list(self.tail))
+        c.oid = self.oid
+        return c
+
+
+def slist_method(I, l: SList, name, args, kwargs):
+    if name == "append":
+        l.tail.append(args[0])
+        return None
+    if name == "extend":
+        l.tail.extend(I.iterate_concrete(args[0]))
+        return None
+    if name == "copy":
+        return SList(l.name, l.base, list(l.tail))
+    raise Unsupported(f"method {name} of a list with an unknown prefix")
+
+
+def slist_eq(I, a, b):
+    if not (isinstance(a, SList) and isinstance(b, SList)):
+        return False  # a list with an unknown prefix is not known to equal any concrete list
+    if not z3.eq(a.base, b.base) or len(a.tail) != len(b.tail):
+        return False
+    return _and([_z(I.formula(I.eq(x, y))) for x, y in zip(a.tail, b.tail)])
 
 
 # ---------------------------------------------------------------------------
